@@ -741,6 +741,8 @@ def sx_call(f, *a, **k):
         if alt is None:
             raise Unsupported("re.Pattern.%s on a symbolic string" % getattr(f, "__name__", "?"))
         return alt(*a, **k)
+    if f is float and t0 is SymStr:
+        return sym_float(a0)
     if f is _collections.Counter and _deep_sym_in(a):
         return SCounter(*a, **k)
     if f is print and _deep_sym_in(a):
@@ -873,6 +875,38 @@ def sx_call(f, *a, **k):
     if k and any(type(x) is SymStr for x in k.values()):
         k = {kk: (x.concrete() if (type(x) is SymStr and x.is_concrete()) else x) for kk, x in k.items()}
     return f(*a, **k)
+
+
+_FLOAT_OK = {}
+
+
+def sym_float(s):
+    """float(<symbolic string>): CPython's float grammar is decided by enumeration over the engine's alphabet at this length
+    (every accepted string is a fork; all others raise ValueError), so the model is exact inside the bound."""
+    import itertools
+
+    if s.is_concrete():
+        return float(s.concrete())
+    e = Engine.cur
+    pts = [c for lo, hi in e.alpha for c in range(lo, hi + 1)]
+    n = len(s)
+    if len(pts) ** n > 60000:
+        raise Unsupported("float() of a symbolic string: alphabet^length too large to tabulate")
+    key = (tuple(pts), n)
+    if key not in _FLOAT_OK:
+        ok = []
+        for t in itertools.product(pts, repeat=n):
+            txt = "".join(map(chr, t))
+            try:
+                float(txt)
+                ok.append(txt)
+            except ValueError:
+                pass
+        _FLOAT_OK[key] = ok
+    for txt in _FLOAT_OK[key]:
+        if _real_bool(s == txt):
+            return float(txt)
+    raise ValueError("could not convert string to float")
 
 
 def symint_to_str(n, max_digits=6):
